@@ -385,12 +385,20 @@ TypedValue evaluate_binary_op_typed(
                 error_msg(DebugMsgId::ZERO_DIVISION_ERROR);
                 throw std::runtime_error("Division by zero");
             }
+            if (right_int == -1) {
+                // INT64_MIN / -1 はハードウェア例外(SIGFPE)になるため、符号反転として計算
+                return make_integer_typed_value(static_cast<int64_t>(
+                    0 - static_cast<uint64_t>(left_int)));
+            }
             return make_integer_typed_value(left_int / right_int);
         }
     } else if (node->op == "%") {
         if (right_int == 0) {
             error_msg(DebugMsgId::ZERO_DIVISION_ERROR);
             throw std::runtime_error("Modulo by zero");
+        }
+        if (right_int == -1) {
+            return make_integer_typed_value(0); // INT64_MIN % -1 のSIGFPEを回避
         }
         return make_integer_typed_value(left_int % right_int);
     } else if (node->op == "==") {
